@@ -10,6 +10,7 @@ Values are mathematical integers; type ranges are added when a value is produced
 Assert obligations check.  Memory integer fields reached through reference parameters are tracked as
 variables too and forgotten at calls that receive a `&mut` argument.
 """
+import os
 import re
 
 from .ir import mk_place, mk_operand
@@ -283,9 +284,100 @@ def is_mem(v):
     return isinstance(v, tuple) and len(v) == 3 and v[0] in ("v", "len", "mlen") and any(e == ("deref",) for e in v[2])
 
 
+def forward_refs(fn):
+    """MIR normalisation for the numeric domain: a place `(*_r).rest`, where `_r` is a reference local with exactly one definition
+    `_r = &P` / `&mut P` (or a move / reborrow of such a local), is rewritten to `P.rest`.  Values reached through different references
+    to the same place then share one variable (`match x { V { n } if n > k => .., V { .. } => helper(&mut x) }` and the `*n += 1` in the
+    helper talk about the same `n`).  Exactness: a reference names the storage it was created from, so the rewrite is exact when P is
+    rooted at a local without a leading deref; with a leading deref the pointer dereferenced must be a never-assigned parameter or itself
+    a forwarded reference.  Block and statement indices are unchanged."""
+    import copy
+    from .ir import Fn
+    j = fn.j
+    ndefs, partial = {}, set()
+    refdef = {}
+    for blk in j["blocks"]:
+        for s_ in blk["s"]:
+            if "a" in s_:
+                l, pr = s_["a"]["l"], s_["a"].get("p") or []
+                if pr:
+                    if pr[0] != "deref":
+                        partial.add(l)
+                    continue
+                ndefs[l] = ndefs.get(l, 0) + 1
+                refdef[l] = s_["rv"]
+        c = blk["t"].get("call") if isinstance(blk["t"], dict) else None
+        if c is not None and not (c["dest"].get("p") or []):
+            ndefs[c["dest"]["l"]] = ndefs.get(c["dest"]["l"], 0) + 1
+            refdef[c["dest"]["l"]] = None
+    argc = j["argc"]
+    target = {}
+
+    def simple(pr):
+        return all(e == "deref" or (isinstance(e, dict) and ("f" in e or "dc" in e)) for e in pr) and "deref" not in pr[1:]
+
+    def resolve(l, depth=0):
+        if l in target:
+            return target[l]
+        target[l] = None
+        rv = refdef.get(l)
+        if depth > 8 or ndefs.get(l) != 1 or rv is None or l in partial or not fn.locals[l]["ty"].startswith("&"):
+            return None
+        res = None
+        if "ref" in rv:
+            P = rv["ref"]
+            pr = P.get("p") or []
+            if simple(pr):
+                if not pr or pr[0] != "deref":
+                    res = {"l": P["l"], "p": list(pr)}
+                else:
+                    q = P["l"]
+                    if 1 <= q <= argc and q not in ndefs and q not in partial:
+                        res = {"l": q, "p": list(pr)}
+                    else:
+                        tq = resolve(q, depth + 1)
+                        if tq is not None and "deref" not in pr[1:] and simple((tq.get("p") or []) + pr[1:]):
+                            res = {"l": tq["l"], "p": list(tq.get("p") or []) + list(pr[1:])}
+        elif "use" in rv and ("mv" in rv["use"] or "cp" in rv["use"]):
+            src = rv["use"].get("mv") or rv["use"].get("cp")
+            if not (src.get("p") or []):
+                res = resolve(src["l"], depth + 1)
+        target[l] = res
+        return res
+    for l in list(refdef):
+        resolve(l)
+    live = {l: t for l, t in target.items() if t is not None}
+    if not live:
+        return fn
+    nj = dict(j)
+    nj["blocks"] = copy.deepcopy(j["blocks"])
+
+    def rewrite(x):
+        if isinstance(x, dict):
+            if "l" in x and isinstance(x["l"], int) and not isinstance(x["l"], bool):
+                pr = x.get("p") or []
+                if pr and pr[0] == "deref" and x["l"] in live:
+                    t = live[x["l"]]
+                    x["p"] = copy.deepcopy(t.get("p") or []) + pr[1:]
+                    x["l"] = t["l"]
+                for e in x.get("p") or []:
+                    if isinstance(e, dict):
+                        rewrite(e)
+                return
+            for v in x.values():
+                rewrite(v)
+        elif isinstance(x, list):
+            for v in x:
+                rewrite(v)
+    rewrite(nj["blocks"])
+    g = Fn(fn.name, nj, fn.crate)
+    g.forwarded = sorted(live)
+    return g
+
+
 class NumAnalysis:
     def __init__(self, fn, prog=None, hyps=None, entry_hook=None, max_disj=MAX_DISJ, pure_calls=(), partition_discr=False, ret_summary=None, local_inv=None, call_hook=None):
-        self.fn = fn
+        self.fn = forward_refs(fn) if os.environ.get("VERIF_NO_REFFWD") is None else fn
         self.prog = prog
         self.hyps = hyps or []
         self.entry_hook = entry_hook
